@@ -1031,7 +1031,7 @@ class Consumer(object):
         proc_block_begin = 0
         proc_block_end = proc_block_size
 
-        while proc_block_begin < len(messages) and not self._shuttingdown:
+        while proc_block_begin < len(messages) and not (self._shuttingdown or self._stopping):
             msgs_to_proc = messages[proc_block_begin:proc_block_end]
             # Call our processor callable and handle the possibility it returned
             # a deferred...
